@@ -149,6 +149,8 @@ def gen_req_body(r, big=False):
 
 def gen_consume(r, o=None):
     o = o or {}
+    if "p_hold" in o and r.random() < o["p_hold"]:
+        return {"hold": r.choice([0.02, 0.2, 1.0])}
     x = r.random()
     if x < o.get("p_all", 0.6):
         return "all"
